@@ -45,7 +45,12 @@ type Spec struct {
 	KillNr    int  // > 0: the seccomp filter kills syscall number KillNr (real SIGSYS)
 	ExtSignal int  // > 0: send this signal from outside when the probe reports "ready"
 	BadExec   bool // run a path that does not exist instead of the probe
-	Deadline  time.Duration
+	// Core: core dumps enabled for the program: RLIMIT_CORE soft > 0 (through the runner's RLimits)
+	// and a writable working directory for the kernel's "core" file
+	Core bool
+	// CancelOnReady: cancel the run's context as soon as the probe reports "ready" (caller kill)
+	CancelOnReady bool
+	Deadline      time.Duration
 }
 
 // Outcome is what was seen.
@@ -55,6 +60,7 @@ type Outcome struct {
 	ReportEOF bool
 	Setup     string // "" = ok, otherwise why the case could not be set up (never judged)
 	ExtSent   bool
+	Cancelled bool // the driver cancelled the context (CancelOnReady)
 }
 
 // Env holds what one worker needs: the probe, a scratch dir and (lazily) one container.
@@ -236,7 +242,9 @@ func (e *Env) Run(s Spec) (out Outcome) {
 			mu.Unlock()
 		}
 	}
-	if s.ExtSignal > 0 {
+	var cancelRun func()
+	cancelled := false
+	if s.ExtSignal > 0 || s.CancelOnReady {
 		go func() {
 			defer close(extDone)
 			for {
@@ -244,6 +252,13 @@ func (e *Env) Run(s Spec) (out Outcome) {
 				mu.Lock()
 				ready := bytes.Contains(raw.Bytes(), []byte("ready "))
 				mu.Unlock()
+				if ready && s.CancelOnReady {
+					mu.Lock()
+					cancelled = true
+					mu.Unlock()
+					cancelRun()
+					return
+				}
 				if ready {
 					select {
 					case <-pidSet:
@@ -306,6 +321,9 @@ func (e *Env) Run(s Spec) (out Outcome) {
 		}
 	}()
 	env := []string{"LIMITS_CHILD=" + s.Child}
+	if s.Core {
+		env = append(env, "LIMITS_CORE=1")
+	}
 	args := append([]string{"/limits"}, s.Args...)
 	execFile := uintptr(base)
 	if s.BadExec {
@@ -322,19 +340,52 @@ func (e *Env) Run(s Spec) (out Outcome) {
 	}
 	ctx, cancel := context.WithTimeout(context.Background(), dl)
 	defer cancel()
+	cancelRun = cancel
+	rlimits, workDir := s.RLimits, ""
+	var nsMounts []mount.SyscallParams
+	if s.Core {
+		// soft limit up to 64 MiB, hard limit left as inherited (no privilege needed)
+		inh, err := ParentLimits("self")
+		if err != nil {
+			out.Setup = "limits: " + err.Error()
+			return
+		}
+		cur := uint64(64 << 20)
+		if inh[4][1] < cur {
+			cur = inh[4][1]
+		}
+		rlimits = append(append([]rlimit.RLimit{}, s.RLimits...),
+			rlimit.RLimit{Res: syscall.RLIMIT_CORE, Rlim: syscall.Rlimit{Cur: cur, Max: inh[4][1]}})
+		switch s.Runner {
+		case "ptrace":
+			workDir = fmt.Sprintf("%s/cwd%d", e.Scratch, e.id)
+			if err := os.MkdirAll(workDir, 0777); err != nil {
+				out.Setup = "cwd: " + err.Error()
+				return
+			}
+		case "unshare":
+			// the new root is remounted read-only: give the program a writable tmpfs to die in
+			mt, err := mount.NewBuilder().WithTmpfs("w", "size=16m,nr_inodes=4k").Build()
+			if err != nil {
+				out.Setup = "mounts: " + err.Error()
+				return
+			}
+			nsMounts, workDir = mt, "/w"
+		}
+	}
 
 	switch s.Runner {
 	case "ptrace":
 		r := &ptrace.Runner{
 			Args: args, Env: env, ExecFile: execFile, Files: files,
-			RLimits: s.RLimits, Limit: s.Limit, Seccomp: filter, SyncFunc: syncFunc,
+			RLimits: rlimits, Limit: s.Limit, Seccomp: filter, SyncFunc: syncFunc, WorkDir: workDir,
 		}
 		out.Result = r.Run(ctx)
 	case "unshare":
 		r := &unshare.Runner{
 			Args: args, Env: env, ExecFile: execFile, Files: files,
-			RLimits: s.RLimits, Limit: s.Limit, Seccomp: filter, SyncFunc: syncFunc,
-			Root: e.nsRoot, HostName: "verif", DomainName: "verif",
+			RLimits: rlimits, Limit: s.Limit, Seccomp: filter, SyncFunc: syncFunc,
+			Root: e.nsRoot, HostName: "verif", DomainName: "verif", Mounts: nsMounts, WorkDir: workDir,
 		}
 		out.Result = r.Run(ctx)
 	case "cbefore", "cafter":
@@ -346,7 +397,7 @@ func (e *Env) Run(s Spec) (out Outcome) {
 		}
 		p := container.ExecveParam{
 			Args: args, Env: env, ExecFile: execFile, Files: files,
-			RLimits: s.RLimits, Seccomp: filter, SyncFunc: syncFunc,
+			RLimits: rlimits, Seccomp: filter, SyncFunc: syncFunc,
 			SyncAfterExec: s.Runner == "cafter",
 		}
 		out.Result = c.Execve(ctx, p)
@@ -359,7 +410,10 @@ func (e *Env) Run(s Spec) (out Outcome) {
 	default:
 		out.Setup = "unknown runner " + s.Runner
 	}
-	if ctx.Err() != nil {
+	mu.Lock()
+	out.Cancelled = cancelled
+	mu.Unlock()
+	if ctx.Err() != nil && !out.Cancelled {
 		out.Setup = "driver deadline hit"
 	}
 	repW.Close()
